@@ -188,6 +188,9 @@ def g_case(rng):
     if mode == "action":
         case["n"] = rng.choice([2, 2, 3])
         case["k"] = rng.randrange(case["n"])
+    if mode in ("ctx", "static", "setter") and not loop and not case.get("shared") and rng.random() < 0.25:
+        # `activate waiter(..)`: the flow restarts (a NEW instance with a new head) whenever it finishes
+        case["activate"] = True
     if mode not in ("sibling",):
         # the same statement as a member of an or-group / as the condition of a `when` block (forked heads)
         case["wrap"] = rng.choice(["plain", "plain", "plain", "or", "when"])
@@ -281,7 +284,7 @@ def source(case):
             for i in range(nvars):
                 L += [f"  global $g{i}", f"  $g{i} = {base.render(case['init'][i])}", f"  start setter{i}"]
         for t in range(case["ninst"]):
-            L.append(f"  start waiter(tag={t})")
+            L.append(f"  {'activate' if case.get('activate') else 'start'} waiter(tag={t})")
         L.append("  match Never()")
     elif mode == "action":
         pat = render_tmpl(case["tmpl"], lambda i: f"$g{i}")
@@ -455,7 +458,7 @@ def expected_hits(case):
             r = vj.dec(cur)
             a = vj.dec(step["x"])
             for t in tags:
-                if done[t] and not case["loop"]:
+                if done[t] and not (case["loop"] or case.get("activate")):
                     continue
                 if mode == "sibling" and sib_ev:
                     continue
@@ -561,7 +564,7 @@ def model_request(case, obs):
         else:
             args = [["x", seen]] + ([["t", {"i": s["t"]}]] if s.get("t") is not None else [])
             steps.append({"op": "ev", "args": args})
-    return {"m": "C04.hist", "tmpl": [["x", canon_tmpl(case["tmpl"])]], "init": obs["init_seen"], "tags": list(range(case["ninst"])), "loop": case["loop"], "tagparam": not case.get("shared"),
+    return {"m": "C04.hist", "tmpl": [["x", canon_tmpl(case["tmpl"])]], "init": obs["init_seen"], "tags": list(range(case["ninst"])), "loop": bool(case["loop"] or case.get("activate")), "tagparam": not case.get("shared"),
             "steps": steps, "rx": obs["rx"]}
 
 
@@ -599,6 +602,8 @@ def shrink(case):
             yield dict(case, steps=steps[:i] + steps[i + 1:])
     if case.get("loop"):
         yield dict(case, loop=False)
+    if case.get("activate"):
+        yield {k: v for k, v in case.items() if k != "activate"}
     if case.get("wrap", "plain") != "plain":
         yield dict(case, wrap="plain")
     if case.get("ninst", 1) > 1 and not case.get("shared"):
@@ -623,6 +628,8 @@ def tags(case, obs):
         t.append("hist-abstain-after-type-error")
     if case["loop"]:
         t.append("hist-loop")
+    if case.get("activate"):
+        t.append("hist-activated-flow")
     if case["ninst"] > 1:
         t.append("hist-2inst-same-event" if case.get("shared") else "hist-2inst")
     # a stale candidate: an ev step that matches an EARLIER value of the pattern but not the current one (or vice versa), after
